@@ -66,6 +66,8 @@ def run_call(mesh, call, state):
         return vec_list(A.face_normals(mesh, persistent=call[1], dense=call[2]), nf)
     if nm == "face_bary":
         return vec_list(A.face_barycenter(mesh, persistent=call[1], dense=call[2]), nf)
+    if nm == "circum":
+        return vec_list(A.face_circumcenter(mesh, persistent=call[1], dense=call[2]), nf)
     if nm == "angles":
         return scal_list(A.corner_angles(mesh, persistent=call[1], dense=call[2]), ncorn)
     if nm == "cot":
